@@ -551,6 +551,11 @@ func (in *Inst) instr(ins ssa.Instruction, st *State) {
 		in.pseudoEvent("mapupdate", x, []ssa.Value{x.Map, x.Key, x.Value}, st)
 	case *ssa.If, *ssa.Jump:
 	case *ssa.Return:
+		// `assert before return[#n]: ..` - a clause evaluated at a return statement of the function under contract
+		// itself, with its locals in scope (argN: the values returned); n counts the returns in source order
+		if in == e.top {
+			in.pseudoEventOrd("return", retIndex(in.fn, x), x, x.Results, st)
+		}
 		var rs []Val
 		for _, r := range x.Results {
 			rs = append(rs, in.val(r, st))
